@@ -153,7 +153,7 @@ fn lit_of(subject_name: &str) -> String {
 }
 
 pub fn run(tier: Tier, report: &mut Report, all_docs: &dyn Fn(&str) -> Vec<Doc>) {
-    let lits: Vec<&str> = tier.pick(vec!["i8", "i32", "isize"], subjects::LITS.to_vec());
+    let lits: Vec<&str> = { let _ = tier; subjects::LITS.to_vec() };
     for kind in subjects::KINDS {
         let subs = subjects::subjects(kind, &lits, &[false, true]);
         // (a) generated with known meaning
